@@ -150,8 +150,21 @@ def _bio_getvalue(ex, self):
     return self.fields['content']
 
 
+def _bio_truncate(ex, self, size=None):
+    """io.BytesIO.truncate: cut the buffer at `size` (default: the current position); the position does not move;
+    extending (size beyond the end) is not modelled"""
+    c = self.fields['content'].z
+    n = self.fields['pos'] if size is None else toint(size)
+    if not ex.choose(n >= 0, 'truncate-nonneg'):
+        raise _Raise(ExcV('ValueError'))
+    if not ex.choose(n <= Length(c), 'truncate-within'):
+        raise Unsupported('BytesIO.truncate beyond the end is not modelled')
+    self.fields['content'] = SeqV(z3.Extract(c, IntVal(0), n), 'bytes')
+    return n
+
+
 BIO_METHODS = {'read': _bio_read, 'write': _bio_write, 'seek': _bio_seek, 'tell': _bio_tell,
-               'getvalue': _bio_getvalue}
+               'getvalue': _bio_getvalue, 'truncate': _bio_truncate}
 
 
 def new_bytesio(ex, initial=None):
